@@ -4256,6 +4256,8 @@ def check_onepoint(goal, ctx):
     return information needed to reconstruct the proof.
     
     """
+    if not goal.is_equals():
+        raise VeriTException("onepoint", "goal should be an equality")
     lhs, rhs = goal.args
 
     # Deconstruct quantifiers at lhs and rhs
